@@ -28,7 +28,9 @@ REQUIRED_THEOREMS = ['recombVec_eq_lagrange', 'recombine_eval', 'recombine_split
                      # source tie (PropsGen/C12Src.lean): definitions generated from the current thresha.py = model
                      'recombination_vector_src_eq', 'random_split_src_eq', 'recombine_one_src_eq',
                      'recombine_list_src_eq', 'intModP_hom', 'recombVecE_intModP_ok',
-                     'recombination_vector_src_lagrange', 'split_recombine_src']
+                     'recombination_vector_src_lagrange', 'split_recombine_src',
+                     # error behaviour of the model = the guards of the code (repo fixes 33ae55a, fe2a0ec)
+                     'randomSplitE_ok', 'randomSplitE_refuses']
 RULE = ('case = (field, t, m, secrets, dealer coefficients, variant list/np, int or field-element inputs) for random_split '
         'and (points = subset of parties in some order, x_rs) for recombine; exhaustive part: GF(5), GF(7), GF(2^2), '
         'GF(3^2), t <= 2, m < |F| (m <= 5, thorough 6), EVERY subset of >= t+1 parties, EVERY x_r of the field, plus the '
@@ -301,6 +303,13 @@ def run(ctx):
     lines.append('split 1 3 - -')
     impl.append(res if st == 'err' else show_matrix(res))
     meta.append({'kind': 'split-empty'})
+    # a field with at most m elements is refused when t > 0 (one party would evaluate the polynomial at 0); t = 0 is dealt
+    for (t_, m_) in ((1, 7), (2, 9), (0, 7), (1, 6)):
+        c_ = [3] * t_
+        st, res, _c, _r = real_split(F, [2], c_, t_, m_, 'list', False)
+        lines.append(f'split {t_} {m_} 2 ' + (','.join(map(str, c_)) if c_ else '-'))
+        impl.append(res if st == 'err' else show_matrix(res))
+        meta.append({'kind': 'split-small-field', 't': t_, 'm': m_})
     batches.append((F, lines, impl, meta))
 
     ctx.note('observations (triaged, no finding): (a) np_random_split lays the randbelow stream out as C.reshape(t,n) '
